@@ -31,7 +31,9 @@ PROP = dict(
                "direction, constant over a history; which member a share group picks is an oracle (the engine searches "
                "the member choices for one that explains the observation; share-group members use clean sessions so "
                "that the choice stays observable); a takeover is the harness' deterministic schedule (new attach "
-               "first, old teardown and will second); outbound QoS 1/2 deliveries are acknowledged at once; "
+               "first, old teardown and will second); when several delayed wills are due in one tick (sendDelayedLWT ranges "
+               "over a Go map) the engine accepts any publication order (it tries every order of the delayed-will table; "
+               "AclProofs.perms_perm, inv_delayed_perm); outbound QoS 1/2 deliveries are acknowledged at once; "
                "the clients' own packet ids are kept clear of those the broker allocates (C10); UNSUBSCRIBE is "
                "not modelled; restored subscriptions (storage hooks, finding C17-3) are outside this model.  The model is that of "
                "the repaired code (fix 411d180); Findings/FixedC17.v keeps the pre-fix will path with witnesses.  "
